@@ -6,6 +6,7 @@ package main
 import (
 	"encoding/json"
 	"fmt"
+	"strings"
 
 	"go.pennock.tech/tabular"
 	"go.pennock.tech/tabular/auto"
@@ -70,6 +71,32 @@ func c09Targets() []c09Target {
 	return ts
 }
 
+// C09Spec: a table and how it is rendered: a fresh table for every target, or
+// ONE table rendered under every target in turn (twice over), which is how an
+// application offering a choice of styles behaves.
+type C09Spec struct {
+	Table  TableSpec `json:"table"`
+	Shared bool      `json:"shared,omitempty"`
+	Perm   uint64    `json:"perm,omitempty"` // order of the first round over the targets
+}
+
+func c09Parse(spec json.RawMessage) C09Spec {
+	var probe map[string]json.RawMessage
+	var sp C09Spec
+	if err := json.Unmarshal(spec, &probe); err == nil {
+		if _, ok := probe["table"]; ok {
+			if err := json.Unmarshal(spec, &sp); err != nil {
+				panic(err)
+			}
+			return sp
+		}
+	}
+	if err := json.Unmarshal(spec, &sp.Table); err != nil { // corpus files hold a bare TableSpec
+		panic(err)
+	}
+	return sp
+}
+
 func init() {
 	register(&Prop{
 		ID:       "C09",
@@ -84,7 +111,22 @@ func init() {
 		Exhaustive: "shapes (header x row-sequence up to length 3, each row by each building method) x all renderers and styles",
 		Gen: func(r *RNG, tier string) []json.RawMessage {
 			var out []json.RawMessage
-			add := func(ts TableSpec) { out = append(out, mustJSON(ts)) }
+			n2 := 0
+			add := func(ts TableSpec) {
+				n2++
+				out = append(out, mustJSON(C09Spec{Table: ts, Shared: n2%3 == 0, Perm: r.U64() % 1000003}))
+			}
+			// columns of boundary widths (glyph runs, padding runs) under every decoration
+			for _, w := range []int{62, 63, 64, 65, 100, 127, 128, 129, 190, 191, 192, 256, 300} {
+				for _, ch := range []string{"a", "\u65e5"} {
+					k := w
+					if ch != "a" {
+						k = w / 2
+					}
+					h := []ItemSpec{Str("h"), Str(strings.Repeat(ch, k))}
+					add(TableSpec{Header: &h, Rows: []RowSpec{{Cells: []ItemSpec{Str("x")}}, {Sep: true}, {Cells: []ItemSpec{Str(strings.Repeat(ch, k) + "\nshort"), Str("y")}}}})
+				}
+			}
 			maxRows := 3
 			if tier == "thorough" {
 				maxRows = 4
@@ -108,10 +150,8 @@ func init() {
 			return out
 		},
 		Run: func(spec json.RawMessage) CaseOut {
-			var ts TableSpec
-			if err := json.Unmarshal(spec, &ts); err != nil {
-				panic(err)
-			}
+			sp := c09Parse(spec)
+			ts := sp.Table
 			probe := tabular.New()
 			ts.Build(probe)
 			view := extractView(probe)
@@ -123,9 +163,32 @@ func init() {
 			var bads []bad
 			sig := ""
 			classes := ""
-			for _, tg := range c09Targets() {
-				t := tabular.New() // fresh table per render: earlier renders leave measurements behind
-				ts.Build(t)
+			targets := c09Targets()
+			var shared tabular.Table
+			if sp.Shared {
+				shared = tabular.New()
+				ts.Build(shared)
+				// a first round over every target on the same table; the second round is the one judged
+				order := make([]int, len(targets))
+				for i := range order {
+					order[i] = i
+				}
+				pr := NewRNG(sp.Perm)
+				for i := len(order) - 1; i > 0; i-- {
+					j := pr.Intn(i + 1)
+					order[i], order[j] = order[j], order[i]
+				}
+				for _, i := range order {
+					tg := targets[i]
+					capture(func() (string, error) { return tg.Render(shared) })
+				}
+			}
+			for _, tg := range targets {
+				t := shared
+				if t == nil {
+					t = tabular.New() // fresh table per render
+					ts.Build(t)
+				}
 				o := capture(func() (string, error) { return tg.Render(t) })
 				kind := map[string]int{"ok": 0, "err": 1, "panic": 2}[o.Kind]
 				classes += fmt.Sprint(kind)
@@ -145,6 +208,9 @@ func init() {
 			}
 			vc := view.Coq(true)
 			tags := append(shapeTags(view), "classes="+classes[:5])
+			if sp.Shared {
+				tags = append(tags, "one-table-all-targets-twice")
+			}
 			for _, rw := range ts.Rows {
 				if rw.How == 2 && len(rw.Cells) > 0 {
 					tags = append(tags, "row-extended-after-attach")
@@ -160,6 +226,16 @@ func init() {
 				Nontrivial: view.NCols > 0,
 			}
 		},
-		Shrink: shrinkTableJSON,
+		Shrink: func(spec json.RawMessage) []json.RawMessage {
+			sp := c09Parse(spec)
+			var out []json.RawMessage
+			for _, c := range shrinkTable(sp.Table) {
+				out = append(out, mustJSON(C09Spec{Table: c, Shared: sp.Shared, Perm: sp.Perm}))
+			}
+			if sp.Shared {
+				out = append(out, mustJSON(C09Spec{Table: sp.Table}))
+			}
+			return out
+		},
 	})
 }
